@@ -52,6 +52,23 @@ func splitFunc(data []byte, atEOF bool) (advance int, token []byte, err error) {
 type Parser struct {
 	inputScanner *bufio.Scanner
 	fieldScanner *FieldParser
+	// consumed tells whether any input was consumed by the scanner.
+	consumed bool
+}
+
+// split is splitFunc, plus keeping track of whether the first event starts at the very beginning
+// of the input: only there a BOM may be removed.
+func (r *Parser) split(data []byte, atEOF bool) (advance int, token []byte, err error) {
+	advance, token, err = splitFunc(data, atEOF)
+	if !r.consumed && advance > 0 {
+		r.consumed = true
+		if advance != len(token) {
+			// Blank lines were skipped before the first event, so it does not start
+			// the input: a BOM in front of it is part of its first line.
+			r.fieldScanner.RemoveBOM(false)
+		}
+	}
+	return advance, token, err
 }
 
 // Next parses a single field from the reader. It returns false when there are no more fields to parse.
@@ -114,10 +131,12 @@ func (r *Parser) Buffer(buf []byte, maxSize int) {
 // New returns a Parser that extracts fields from a reader.
 func New(r io.Reader) *Parser {
 	sc := bufio.NewScanner(r)
-	sc.Split(splitFunc)
 
 	fsc := NewFieldParser("")
 	fsc.RemoveBOM(true)
 
-	return &Parser{inputScanner: sc, fieldScanner: fsc}
+	p := &Parser{inputScanner: sc, fieldScanner: fsc}
+	sc.Split(p.split)
+
+	return p
 }
